@@ -24,6 +24,7 @@ def run(pid, tier):
     # --- free-running / stray wake / fault injection / large histories, all judged by TLC (B2)
     S.free_running(chk, col, bindir, tier)
     S.stray_wake(chk, col, bindir, tier)
+    S.directed_stray(chk, col, bindir, tier)
     S.faults(chk, col, bindir, tier)
     S.perturbed(chk, col, bindir, tier)
     S.big_batches(chk, col, bindir, tier)
@@ -34,6 +35,7 @@ def run(pid, tier):
         M.replay_tours(chk, col, rb, "quick", tag="-release")
         S.free_running(chk, col, rb, "quick", release=True, tag="-release")
         S.stray_wake(chk, col, rb, "quick", release=True, tag="-release")
+        S.directed_stray(chk, col, rb, "quick", release=True, tag="-release")
         S.faults(chk, col, rb, "quick", release=True, tag="-release")
         S.big_batches(chk, col, rb, tier, release=True, tag="-release")
         # the other two link modes of the repository's runners (static, static PIE), release
@@ -42,6 +44,7 @@ def run(pid, tier):
             M.replay_tours(chk, col, mb, "quick", tag="-" + mode)
             S.free_running(chk, col, mb, "quick", release=True, tag="-" + mode)
             S.stray_wake(chk, col, mb, "quick", release=True, tag="-" + mode)
+            S.directed_stray(chk, col, mb, "quick", release=True, tag="-" + mode)
             S.faults(chk, col, mb, "quick", release=True, tag="-" + mode)
         chk.extra["link_modes"] = ["dynamic PIE debug", "dynamic PIE release", "static release", "static-pie release"]
     return finish(chk, col, pid)
